@@ -66,3 +66,44 @@ func reachSSAWithValues(fn *ssa.Function, depth int) []*ssa.Function {
 	add(fn, depth)
 	return out
 }
+
+// loopSkipDecisions returns, for a block u inside a loop, the loop header and the branch points of the loop that decide
+// whether this iteration reaches u at all: one side gets to u (without passing the header), another stays in the loop
+// and does not. Exits of the loop (returns, breaks) are not skips of an element.
+func loopSkipDecisions(f *ssa.Function, u *ssa.BasicBlock) (*ssa.BasicBlock, []*ssa.If) {
+	var h *ssa.BasicBlock
+	var loop map[*ssa.BasicBlock]bool
+	for _, b := range f.Blocks {
+		if l := loopBlocks(b); l != nil && l[u] && (loop == nil || len(l) < len(loop)) {
+			h, loop = b, l
+		}
+	}
+	if h == nil {
+		return nil, nil
+	}
+	var out []*ssa.If
+	for _, b := range f.Blocks {
+		if !loop[b] || b == h || b == u || u.Dominates(b) {
+			continue
+		}
+		i := ifOf(b)
+		if i == nil {
+			continue
+		}
+		reaches, skips := false, false
+		for _, s := range b.Succs {
+			if !loop[s] {
+				continue
+			}
+			if s == u || blockReachesAvoiding(s, u, h) {
+				reaches = true
+			} else {
+				skips = true
+			}
+		}
+		if reaches && skips {
+			out = append(out, i)
+		}
+	}
+	return h, out
+}
